@@ -28,6 +28,8 @@ from ..mon.hooks import Hooks
 from ..mon import arbor
 
 PROP = "C07"
+LEVEL_TEXT = 'The nine operations are hooked; a pre-snapshot (leaf set, unrooted splits, total length, all leaf-to-leaf paths, flag, distances from both ends of the target edge) is compared with the post-call tree. All shapes with <= 4/5 leaves x every target x flag settings x nine length patterns (unit/integer/ultrametric patterns put the midpoint on a node) as workload, random larger trees beyond.'
+LEVEL_NOTE = 'Trusted: vf/ref.py path/splits oracles; exact arithmetic on integer/dyadic lengths, 1e-9 relative on floats.'
 LEVEL = "exploration"
 TECHNIQUE = "runtime monitoring: pre/post hooks on the 9 re-rooting operations + reference-model oracle (splits, path lengths) on generated trees"
 RULE = ("cases = tree shape (all shapes n<=5, random larger) x rooting flag x length pattern x operation x every target "
